@@ -264,6 +264,112 @@ func litRuns(toks []int) [][2]int {
 	return runs
 }
 
+// ordClass is CpClass of CanonJSON.tla section 8b: the classes of characters an ordering can tell apart.
+func ordClass(cp int) string {
+	switch {
+	case cp < 0x80:
+		return "ascii"
+	case cp < 0x800:
+		return "two-byte"
+	case cp < 0xD800:
+		return "bmp-below-surrogates"
+	case cp < 0x10000:
+		return "bmp-above-surrogates"
+	}
+	return "astral"
+}
+
+// keysOf returns the object keys (code points) of a token text.
+func keysOf(toks []int) [][]int {
+	var keys [][]int
+	start := -1
+	for i, t := range toks {
+		if t != tQuote {
+			continue
+		}
+		if start < 0 {
+			start = i
+			continue
+		}
+		if i+1 < len(toks) && toks[i+1] == tColon {
+			var k []int
+			for _, c := range toks[start+1 : i] {
+				k = append(k, tokCp(c))
+			}
+			keys = append(keys, k)
+		}
+		start = -1
+	}
+	return keys
+}
+
+// misplacedKey: the output departs from the canonical text ref inside the key written by tokens start..end.  If the
+// output has, at the place of that key, ANOTHER key of the document, the members are in a different order: the result
+// names the classes (DiffClasses of CanonJSON.tla section 8b) of the two characters at which the two keys first
+// differ, "<class in the key that belongs here>-before-<class in the key found here>".  "" if it is not a matter of order.
+func misplacedKey(ref, at []int, start, end int, got []byte) string {
+	if at[start] >= len(got) || got[at[start]] != '"' {
+		return ""
+	}
+	// the JSON string that the output holds at the place of the key
+	j := at[start] + 1
+	for j < len(got) && got[j] != '"' {
+		if got[j] == '\\' {
+			j++
+		}
+		j++
+	}
+	if j >= len(got) {
+		return ""
+	}
+	var found string
+	if json.Unmarshal(got[at[start]:j+1], &found) != nil {
+		return ""
+	}
+	var here, there []int
+	for _, c := range ref[start+1 : end] {
+		here = append(here, tokCp(c))
+	}
+	for _, c := range found {
+		there = append(there, int(c))
+	}
+	same := func(a, b []int) bool {
+		if len(a) != len(b) {
+			return false
+		}
+		for i := range a {
+			if a[i] != b[i] {
+				return false
+			}
+		}
+		return true
+	}
+	if same(here, there) {
+		return ""
+	}
+	sibling := false
+	for _, k := range keysOf(ref) {
+		if same(k, there) {
+			sibling = true
+		}
+	}
+	if !sibling {
+		return ""
+	}
+	i := 0
+	for i < len(here) && i < len(there) && here[i] == there[i] {
+		i++
+	}
+	ch, ct := "end", "end"
+	if i < len(here) {
+		ch = ordClass(here[i])
+	}
+	if i < len(there) {
+		ct = ordClass(there[i])
+	}
+	return ch + "-before-" + ct
+}
+
 func commonPrefix(a, b []byte) int {
 	d := 0
 	for d < len(a) && d < len(b) && a[d] == b[d] {
@@ -323,6 +429,9 @@ func classOf(exp, alt []int, got []byte) string {
 		where := "string"
 		if end >= 0 && end+1 < len(ref) && ref[end+1] == tColon {
 			where = "key"
+			if ord := misplacedKey(ref, at, start, end, got); ord != "" {
+				return "key-order/" + ord
+			}
 		}
 		if isChTok(t) {
 			return where + "-char:" + cpClass(tokCp(t))
